@@ -26,7 +26,7 @@ ASSUMPTIONS = [
     "incomplete-gamma recurrences next to their removable singularity; observed on the unchanged tree: up to 1e-5 on far-tail masses of 1e-11 at |y - 1| = 2e-6)",
 ]
 REQUIRED_COUNTERS = ["cmp_integrate", "cmp_x", "cmp_xx", "cmp_xn", "additivity", "sign_rule", "truncated_cmp", "successive_truncations",
-                     "closed_form_calls", "library_quad_calls"]
+                     "closed_form_calls", "library_quad_calls", "high_moment_comparisons"]
 MIN_NONTRIVIAL = {"quick": 30, "thorough": 200}
 THOROUGH_ROUNDS = 10      # the thorough tier runs the generators this many times (different seeds)
 RTOL = 1e-7
@@ -297,6 +297,28 @@ def _run_case(case, R, mon):
             R.hit("truncated_density")
             if float(nu(x)) != float(density(x)):
                 R.violation(f"{label_t}-density-inside", f"truncated density differs from the base density at {x}", {"spec": spec})
+    # high moments of the variance-gamma measure over the half-lines and the whole line (n = 0, 1, 2, 3, ... has no upper end): exact value
+    # c Gamma(n) / lambda^n on each side, written here
+    if spec["family"] == "VG" and not trunc:
+        p_ = spec["params"]
+        s2 = p_["sigma"] ** 2
+        lam_p = (math.sqrt(p_["theta"] ** 2 + 2 * s2 / p_["nu"]) - p_["theta"]) / s2        # decay rate of the positive side
+        lam_m = lam_p + 2 * p_["theta"] / s2                                                  # ... of the negative side
+        c_ = 1.0 / p_["nu"]
+        for n in (9, 14, 20, 21, 22, 25, 31):
+            right = c_ * math.gamma(n) / lam_p**n
+            left = (-1.0) ** n * c_ * math.gamma(n) / lam_m**n
+            for (a, b, want_) in ((0.0, math.inf, right), (-math.inf, 0.0, left), (-math.inf, math.inf, right + left)):
+                try:
+                    with np.errstate(all="ignore"):
+                        got_ = float(nu.integrate_against_xn(a, b, n))
+                except Exception as exc:  # noqa: BLE001
+                    R.violation(f"{label_t}-integrate_against_xn[high-n]-raises", f"{label_t}: nu.integrate_against_xn({a}, {b}, {n}) raises {type(exc).__name__}: {exc}", {"spec": spec})
+                    continue
+                R.hit("high_moment_comparisons")
+                if not (abs(got_ - want_) <= 1e-9 * (abs(right) + abs(left))):
+                    R.violation(f"{label_t}-integrate_against_xn[n>=21]-half-line" if n >= 21 else f"{label_t}-integrate_against_xn[9<=n<=20]-half-line",
+                                f"{label_t}: nu.integrate_against_xn({a}, {b}, {n}) = {got_!r}, exact value c Gamma(n) / lambda^n = {want_!r}", {"spec": spec, "n": n})
     if nontrivial:
         R.nontrivial_case(label_t, spec["params"], trunc)
     R.sample({"model": spec, "trunc": trunc, "example_interval": _intervals(np.random.default_rng(case["seed"]), trunc)[0]})
